@@ -1,0 +1,26 @@
+//go:build verif
+
+package transp
+
+import (
+	"hash"
+	"unsafe"
+)
+
+// VerifDigest feeds the whole bucket array into h (build tag verif).
+func (t *Table) VerifDigest(h hash.Hash) {
+	if len(t.data) == 0 {
+		return
+	}
+	raw := unsafe.Slice((*byte)(unsafe.Pointer(&t.data[0])), len(t.data)*bucketSize)
+	h.Write(raw)
+}
+
+// VerifBytes is the current table size in bytes.
+func (t *Table) VerifBytes() int { return len(t.data) * bucketSize }
+
+// VerifCopyFrom makes t an exact copy of src (same size, same contents).
+func (t *Table) VerifCopyFrom(src *Table) {
+	t.Resize(src.VerifBytes())
+	copy(t.data, src.data)
+}
